@@ -108,6 +108,19 @@ impl<'tcx> Cx<'tcx> {
         s(format!("{}", t))
     }
 
+    /// like `ty`, with unevaluated constants (array lengths naming a const item) evaluated; types
+    /// that mention regions are printed as written
+    fn nty(&self, owner: DefId, t: Ty<'tcx>) -> J {
+        use rustc_middle::ty::TypeVisitableExt;
+        if !t.has_free_regions() && !t.has_bound_regions() && !t.has_non_region_param() {
+            let env = ty::TypingEnv::post_analysis(self.tcx, owner);
+            if let Ok(n) = self.tcx.try_normalize_erasing_regions(env, ty::Unnormalized::new_wip(t)) {
+                return self.ty(n);
+            }
+        }
+        self.ty(t)
+    }
+
     fn path(&self, d: DefId) -> String {
         self.tcx.def_path_str(d)
     }
@@ -264,6 +277,27 @@ impl<'tcx> Cx<'tcx> {
             PatKind::Range(r) => {
                 v.push(("k", s("Range")));
                 v.push(("dbg", s(format!("{:?}", r))));
+                let signed = r.ty.is_signed();
+                let bound = |b: &thir::PatRangeBoundary<'tcx>| -> J {
+                    match b {
+                        thir::PatRangeBoundary::Finite(vt) => match vt.try_to_leaf() {
+                            Some(si) => {
+                                if signed {
+                                    J::Num(si.to_int(si.size()))
+                                } else {
+                                    J::Num(si.to_bits(si.size()) as i128)
+                                }
+                            }
+                            None => J::Null,
+                        },
+                        _ => J::Null,
+                    }
+                };
+                v.push(("lo", bound(&r.lo)));
+                v.push(("hi", bound(&r.hi)));
+                v.push(("lo_inf", J::Bool(matches!(r.lo, thir::PatRangeBoundary::NegInfinity))));
+                v.push(("hi_inf", J::Bool(matches!(r.hi, thir::PatRangeBoundary::PosInfinity))));
+                v.push(("inclusive", J::Bool(matches!(r.end, rustc_hir::RangeEnd::Included))));
             }
             PatKind::Or { pats } => {
                 v.push(("k", s("Or")));
@@ -680,7 +714,7 @@ fn extract<'tcx>(tcx: TyCtxt<'tcx>, name: &str) -> J {
                         let ft = tcx.type_of(f.did).instantiate_identity().skip_norm_wip();
                         let mut fv = vec![
                             ("name", s(f.name)),
-                            ("ty", cx.ty(ft)),
+                            ("ty", cx.nty(did, ft)),
                             ("vis", s(vis_str(tcx, f.did))),
                         ];
                         if let Some(sz) = cx.layout_size(did, ft) {
@@ -822,7 +856,7 @@ fn extract<'tcx>(tcx: TyCtxt<'tcx>, name: &str) -> J {
                 let th = steal.borrow();
                 let mut params = Vec::new();
                 for p in th.params.iter() {
-                    let mut pv = vec![("ty", cx.ty(p.ty))];
+                    let mut pv = vec![("ty", cx.nty(ldid.to_def_id(), p.ty))];
                     if let Some(pat) = &p.pat {
                         pv.push(("pat", cx.pat(&th, pat)));
                     }
